@@ -114,8 +114,14 @@ func init() {
 				}
 				sa.outbox = append(sa.outbox, newOutMsg(genMessage(c.Rng, sa.mycall, sb.mycall, body)))
 			}
+			if i%4 == 1 {
+				// the outbound handler lists the same message twice (what Radio Only gateways do): the receiver sees
+				// one MID twice in a block, and only one copy is transferred
+				sa.outbox = append(sa.outbox, sa.outbox[c.Rng.Intn(len(sa.outbox))])
+			}
 			clean := runPairImpl(sa, sb, c.Rng.Int63(), -1, -1)
 			if clean.a.err != nil || clean.b.err != nil {
+				c.Note("clean run failed (%v / %v hung=%v): scenario skipped", clean.a.err, clean.b.err, clean.a.hung || clean.b.hung)
 				continue
 			}
 			spans := frameSpans(clean.a.wire)
@@ -208,6 +214,10 @@ func init() {
 					if !rejected && !intact[mid] {
 						c.Violate("C04:damaged-marked-sent:"+kind, "the sender recorded message "+mid+" as sent although the receiver's handler never got it intact", rep)
 					}
+					if rejected && !intact[mid] && sb.policy[mid] != '-' {
+						// SetSent(mid, rejected=true) takes the message out of the outbox just the same
+						c.Violate("C04:damaged-marked-sent-as-rejected:"+kind, "the sender recorded message "+mid+" as sent (\"already received\") although the receiver's handler neither rejected it nor got it intact", rep)
+					}
 				}
 				sb2 := *sb
 				rb := &sessRun{tw: pr.b.tw, err: pr.b.err}
@@ -274,6 +284,18 @@ func init() {
 								try(map[int]edit{o: {'s', []byte{v}}}, "substitute-structural", true)
 							}
 						}
+					}
+					// insertions in front of and deletions of each of those structural bytes: an inserted byte makes the
+					// header one byte longer than its length byte says; white space, signs, digits and NUL are the
+					// values a lenient field parser would swallow
+					for _, o := range pos {
+						if o < lo || o >= hi {
+							continue
+						}
+						for _, v := range []byte{' ', '\t', '\n', '\r', 0x0b, 0x0c, '0', '+', '-', 0, 0xff, 'x'}[:c.Budget(8, 12)] {
+							try(map[int]edit{o: {'i', []byte{v}}}, "insert-structural", true)
+						}
+						try(map[int]edit{o: {'d', nil}}, "delete-structural", true)
 					}
 				}
 				// deletions / insertions
